@@ -624,11 +624,28 @@ def batching(ctx):
         return alg.sym(f"M<{orientations.flat[0]}>")
 
     def mkpool():
-        p = Record(None, {}, label="Pool")
-        p.native_methods["imap"] = Native("imap", lambda I_, f_, seq, *a: [I_.call(f_, (x,)) for x in I_.iterate(seq)])
+        # typestate of a multiprocessing pool: running -> closed / terminated; leaving a `with pool:` block terminates it; work can only be
+        # submitted while it is running
+        p = Record(None, {"state": "running"}, label="Pool")
+
+        def running(node=None):
+            if p.attrs["state"] != "running":
+                from ..values import ExcVal
+                raise RaiseSig(ExcVal("ValueError", args=("Pool not running",), node=node))
+
+        def imap(I_, f_, seq, *a):
+            running()
+            return [I_.call(f_, (x,)) for x in I_.iterate(seq)]
+        p.native_methods["imap"] = Native("imap", imap)
         p.native_methods["map"] = p.native_methods["imap"]
+        p.native_methods["close"] = Native("close", lambda I_: p.attrs.__setitem__("state", "closed"))
+        p.native_methods["terminate"] = Native("terminate", lambda I_: p.attrs.__setitem__("state", "terminated"))
+        p.native_methods["join"] = Native("join", lambda I_: None)
+        p.native_methods["__enter__"] = Native("__enter__", lambda I_: p)
+        p.native_methods["__exit__"] = Native("__exit__", lambda I_, *a: p.attrs.__setitem__("state", "terminated"))
 
         def unordered(I_, f_, seq, *a):
+            running()
             return list(reversed([I_.call(f_, (x,)) for x in I_.iterate(seq)]))
         p.native_methods["imap_unordered"] = Native("imap_unordered", unordered)   # any order is allowed: the stub returns the reverse
         return p
@@ -646,7 +663,20 @@ def batching(ctx):
             stack = symarr("S", (3, 2, 3, 3))
             sysm = I.resolve("pydrex.geometry.LatticeSystem").members["hexagonal"]
             try:
-                out = I.call(public(ctx, I, dotted), (stack, sysm), {"bins": 7, "pool": None if how == "own pool" else mkpool()})
+                ext = None if how == "own pool" else mkpool()
+                out = I.call(public(ctx, I, dotted), (stack, sysm), {"bins": 7, "pool": ext})
+                if ext is not None:
+                    # the pool belongs to the caller: it is still running afterwards and serves a second stack
+                    st_ = ext.attrs["state"]
+                    again = None
+                    try:
+                        out2 = I.call(public(ctx, I, dotted), (symarr("S", (3, 2, 3, 3)), sysm), {"bins": 7, "pool": ext})
+                        again = isinstance(out2, np.ndarray) and out2.shape == (3,) and all(lift(a) == lift(b) for a, b in zip(out2, out))
+                    except RaiseSig as r2:
+                        again = f"raises {r2.exc.typename}"
+                    ctx.ob("C14.batch-order", "caller's pool: left running and reusable for the next stack", st_ == "running" and again is True,
+                           f"state of the caller's pool after the call: {st_}; second call with the same pool: {again}", loc)
+                    del calls[3:]
             except RaiseSig as r:
                 ctx.ob("C14.batch-order", f"{how}: result k is the index of snapshot k", False, f"raises {r.exc.typename}", loc)
                 continue
@@ -669,4 +699,4 @@ def batching(ctx):
     ctx.ob("C14.batch-order", "ray branch builds its task list in stack order", bool(comps), "", loc)
     out_alloc = any(isinstance(s, ast.Assign) and isinstance(s.value, ast.Call) and "len" in ast.unparse(s.value) and fn.args.args[0].arg in ast.unparse(s.value) for s in fn.body)
     ctx.ob("C14.batch-order", "one result slot per snapshot", out_alloc, "", loc)
-    ctx.floor("C14.batch-order", 5)
+    ctx.floor("C14.batch-order", 6)
